@@ -8,15 +8,22 @@
        rx:   - | c:<hex> | p:<hex> | s:<hex>     tok: l:<hex> | m | t | c | i:<type> (%{if-type}) | e (%{endif})
        B of an ini case: stdout stdout_color stderr stderr_color platform_std_log rotate_on_startup
                          rotate_daily compress_old_files async
+       msg:  type cat text tid time day     (day = days since the epoch of the message's date)
    modes
-     ini      : case -> "<shape> <async> <stdout> <stderr> <file> <syslog records>"  (model of the code)
+     ini      : case -> "<shape> <async> <stdout> <stderr> <file> <syslog records> <file records, comma separated>"  (model of the code)
      inispec  : case -> "<stdout> <stderr> <file>"                                     (what the keys say)
      inioracle: case + " | <stdout> <stderr> <file>" -> 1/0                            (prop_ini_b)
      initext  : case -> "<filter_rules text> <regexp_filter text> <message_pattern text>"
-     oneline  : case -> "<shape> <async> <stdout> <stderr> <file>"
+     oneline  : case -> "<shape> <async> <stdout> <stderr> <file> <file records, comma separated>"
+     inilayout / ollayout : case + " | <npre> <d0>" -> "<day>:<index>:<records>,... <records of the active file>"
+                    (which file holds which record: npre old lines last modified on day d0 found at start)
+     inilayoracle / ollayoracle : case + " | <npre> <d0> <rotated as above|-> <active>" -> 1/0   (prop_layout_b)
      oloracle : "<console> <file>" -> 1/0                                               (prop_oneline_b)
      strip    : hex -> hex (the source's class)      stripspec : hex -> hex (SGR class)
-     install  : history (I R 1-9 D) -> handler current after each call (L D 1-9)
+     install  : history -> two characters per call: handler current after it (L D 1-9) and who receives a
+                    message then (d Qt's default handler, 1-9 foreign, p q r s logger 0..3, - nobody)
+                    history alphabet: I R 1-9 D as before (I = install by the singleton, logger 0);
+                    a b c = create logger 1 2 3; i j k = install by logger 1 2 3; x y z = destroy logger 1 2 3
      instoracle: "<history> <trace>" -> 1/0                                             (prop_install_b) *)
 open Config_model
 let rec pos_of_int n = if n = 1 then XH else if n land 1 = 1 then XI (pos_of_int (n lsr 1)) else XO (pos_of_int (n lsr 1))
@@ -42,7 +49,9 @@ let parse_msgs toks =
   let n = int_of_string (expect toks 'M') in
   List.init n (fun _ ->
     let t = take toks in let cat = take toks in let text = take toks in let tid = take toks in let tm = take toks in
-    { m_type = ty t.[0]; m_cat = unhex cat; m_text = unhex text; m_tid = n_of_int (int_of_string tid); m_time = unhex tm })
+    let day = take toks in
+    { m_type = ty t.[0]; m_cat = unhex cat; m_text = unhex text; m_tid = n_of_int (int_of_string tid); m_time = unhex tm;
+      m_day = n_of_int (int_of_string day) })
 let parse_env toks = let e = expect toks 'E' in { tty_out = e.[0] = '1'; tty_err = e.[1] = '1' }
 let parse_ini toks =
   let e = parse_env toks in
@@ -92,8 +101,26 @@ let split_bar line =
 let words s = List.filter (fun x -> x <> "") (String.split_on_char ' ' s)
 let hch = function Default -> 'D' | Logger -> 'L' | Foreign n -> Char.chr (48 + int_of_nat n)
 let hof = function 'D' -> Default | 'L' -> Logger | c -> Foreign (nat_of_int (Char.code c - 48))
-let opof = function 'I' -> Install | 'R' -> Restore | 'D' -> ForeignReset | c -> ForeignInstall (nat_of_int (Char.code c - 48))
+let rch = function RDefault -> 'd' | RNone -> '-' | RForeign n -> Char.chr (48 + int_of_nat n) | RLogger k -> Char.chr (Char.code 'p' + int_of_nat k)
+let rof = function 'd' -> RDefault | '-' -> RNone | c when c >= 'p' && c <= 'z' -> RLogger (nat_of_int (Char.code c - Char.code 'p'))
+                 | c -> RForeign (nat_of_int (Char.code c - 48))
+let opof = function
+  | 'I' -> Install O | 'R' -> Restore | 'D' -> ForeignReset
+  | 'a' | 'b' | 'c' as c -> Create (nat_of_int (Char.code c - Char.code 'a' + 1))
+  | 'i' | 'j' | 'k' as c -> Install (nat_of_int (Char.code c - Char.code 'i' + 1))
+  | 'x' | 'y' | 'z' as c -> Destroy (nat_of_int (Char.code c - Char.code 'x' + 1))
+  | c -> ForeignInstall (nat_of_int (Char.code c - 48))
 let chars s = List.init (String.length s) (String.get s)
+let rec pairs = function a :: b :: r -> (hof a, rof b) :: pairs r | _ -> []
+let show_layout (rot, act) =
+  (if rot = [] then "-" else String.concat "," (List.map (fun ((d, i), n) -> Printf.sprintf "%d:%d:%d" (int_of_n d) (int_of_nat i) (int_of_nat n)) rot))
+  ^ " " ^ string_of_int (int_of_nat act)
+let parse_layout rot act =
+  ((if rot = "-" then [] else List.map (fun f -> match String.split_on_char ':' f with
+      | [d; i; n] -> ((n_of_int (int_of_string d), nat_of_int (int_of_string i)), nat_of_int (int_of_string n))
+      | _ -> raise (Bad "rotated file")) (String.split_on_char ',' rot)),
+   nat_of_int (int_of_string act))
+let recs l = if l = [] then "-" else String.concat "," (List.map (fun r -> if r = [] then "." else hex r) l)
 let () =
   let mode = if Array.length Sys.argv > 1 then Sys.argv.(1) else "ini" in
   try while true do
@@ -104,7 +131,7 @@ let () =
         let (e, s, ms) = parse_ini (ref (words line)) in
         let hs = ini_handlers s in
         let evs = run e hs ms in
-        Printf.sprintf "%s %s %s %d" (shape hs) (b01 (ini_is_async s)) (streams evs) (List.length (project OSyslog evs))
+        Printf.sprintf "%s %s %s %d %s" (shape hs) (b01 (ini_is_async s)) (streams evs) (List.length (project OSyslog evs)) (recs (project OFile evs))
       | "inispec" ->
         let (e, s, ms) = parse_ini (ref (words line)) in
         Printf.sprintf "%s %s %s" (hex (spec_stdout s e ms)) (hex (spec_stderr s e ms)) (hex (spec_file s e ms))
@@ -121,15 +148,28 @@ let () =
       | "oneline" ->
         let (e, a, ms) = parse_oneline (ref (words line)) in
         let hs = oneline_handlers a in
-        Printf.sprintf "%s %s %s" (shape hs) (b01 (oneline_is_async a)) (streams (run e hs ms))
+        let evs = run e hs ms in
+        Printf.sprintf "%s %s %s %s" (shape hs) (b01 (oneline_is_async a)) (streams evs) (recs (project OFile evs))
+      | "inilayout" | "ollayout" | "inilayoracle" | "ollayoracle" ->
+        let (c, o) = split_bar line in
+        (match words o with
+         | npre :: d0 :: rest ->
+           let npre = nat_of_int (int_of_string npre) and d0 = n_of_int (int_of_string d0) in
+           (match mode, rest with
+            | "inilayout", [] -> let (_, s, ms) = parse_ini (ref (words c)) in show_layout (ini_layout s npre d0 ms)
+            | "ollayout", [] -> let (_, a, ms) = parse_oneline (ref (words c)) in show_layout (oneline_layout a npre d0 ms)
+            | "inilayoracle", [rot; act] -> let (_, s, ms) = parse_ini (ref (words c)) in b01 (ini_layout_oracle s npre d0 ms (parse_layout rot act))
+            | "ollayoracle", [rot; act] -> let (_, a, ms) = parse_oneline (ref (words c)) in b01 (oneline_layout_oracle a npre d0 ms (parse_layout rot act))
+            | _ -> "?")
+         | _ -> "?")
       | "oloracle" ->
         (match words line with [c; f] -> b01 (prop_oneline_b (unhex c) (unhex f)) | _ -> "?")
       | "strip" -> hex (src_strip (unhex (String.trim line)))
       | "stripspec" -> hex (strip_sgr (unhex (String.trim line)))
-      | "install" -> let tr = install_trace (List.map opof (chars line)) in String.concat "" (List.map (fun h -> String.make 1 (hch h)) tr)
+      | "install" -> let tr = install_trace (List.map opof (chars line)) in String.concat "" (List.map (fun (h, r) -> Printf.sprintf "%c%c" (hch h) (rch r)) tr)
       | "instoracle" ->
         (match words line with
-         | [h; t] -> b01 (prop_install_b (List.map opof (chars h)) (List.map hof (chars t)))
+         | [h; t] -> b01 (String.length t = 2 * String.length h && prop_install_b (List.map opof (chars h)) (pairs (chars t)))
          | [h] -> b01 (prop_install_b (List.map opof (chars h)) [])
          | _ -> "?")
       | _ -> "?mode"
